@@ -119,7 +119,11 @@ func (l *Loader) Next() (entry *BinEntry, err error) {
 			rtype := l.ReadByteP()
 			t = rtype
 		} else {
+			// remaining chunk of a split value: same key, same expiry and eviction hints
 			t = l.lastEntry.Type
+			entry.ExpireAt = l.lastEntry.ExpireAt
+			entry.IdleTime = l.lastEntry.IdleTime
+			entry.Freq = l.lastEntry.Freq
 		}
 		entry.Type = t
 		switch t {
